@@ -148,6 +148,8 @@ type assignEntry struct {
 	ref    *Term
 	text   string
 	whole  bool // prefix names a whole type: match the key itself or any of its fields
+	off    *Term // slice elements: only [off, off+n) of the backing array may change
+	n      *Term
 }
 
 func (a assignEntry) covers(key string) bool {
@@ -183,6 +185,11 @@ func (e *Exec) resolveAssign(st *State, fn *ssa.Function, params map[string]Valu
 	}
 	if strings.HasPrefix(path, "ghost.") && !strings.Contains(path, "(") {
 		return assignEntry{prefix: "ghost:" + strings.TrimPrefix(path, "ghost."), ref: IntConst(0), text: path}
+	}
+	if strings.HasPrefix(path, "ghost.lock(") {
+		inner := strings.TrimSuffix(strings.TrimPrefix(path, "ghost.lock("), ")")
+		val := e.valueAt(st, fn, params, inner)
+		return assignEntry{prefix: "ghost:chanheld", ref: val.(*Term), text: path}
 	}
 	if strings.HasPrefix(path, "ghost.rd(") || strings.HasPrefix(path, "ghost.wr(") {
 		inner := strings.TrimSuffix(path[len("ghost.rd("):], ")")
@@ -243,7 +250,7 @@ func (e *Exec) resolveAssign(st *State, fn *ssa.Function, params map[string]Valu
 	if elems {
 		switch x := cur.(type) {
 		case *SliceV:
-			return assignEntry{prefix: elemKey(x.Elem), ref: x.Arr, text: path + "[*]"}
+			return assignEntry{prefix: elemKey(x.Elem), ref: x.Arr, text: path + "[*]", off: x.Off, n: x.Len}
 		case *PtrV:
 			l := e.locOf(x)
 			v := st.LoadLoc(l)
@@ -354,7 +361,12 @@ func (e *Exec) havocAssign(st *State, a assignEntry) {
 		}
 		h := st.heap(k, s)
 		_, es := s.ArrayParts()
-		st.heaps[k] = Store(h, a.ref, Fresh("hv:"+k, es))
+		if a.off != nil && es.IsArray() {
+			// only the slice's own range of the backing array is unspecified afterwards
+			st.heaps[k] = Store(h, a.ref, ArrayCopy(Select(h, a.ref), a.off, Fresh("hv:"+k, es), a.off, a.n))
+		} else {
+			st.heaps[k] = Store(h, a.ref, Fresh("hv:"+k, es))
+		}
 		st.written[k] = true
 	}
 }
@@ -682,12 +694,88 @@ func (e *Exec) sharedAccessMap(st *State, fr *Frame, m ssa.Value, pos token.Pos)
 }
 func (e *Exec) lockAcquired(st *State, l Loc) {}
 
-func (e *Exec) selectInstr(st *State, fr *Frame, x *ssa.Select) []Outcome {
-	panic(unsupported("select statement"))
+// ---------- channels used as mutexes (a 1-slot channel holding a token) ----------
+
+// isLockChan: the channel value was loaded from a field declared `//@ lock-chan <field>`.
+func (e *Exec) isLockChan(v ssa.Value) bool {
+	ld, ok := v.(*ssa.UnOp)
+	if !ok {
+		return false
+	}
+	fa, ok := ld.X.(*ssa.FieldAddr)
+	if !ok {
+		return false
+	}
+	st, ok := fa.X.Type().Underlying().(*types.Pointer).Elem().Underlying().(*types.Struct)
+	if !ok {
+		return false
+	}
+	name := st.Field(fa.Field).Name()
+	for _, l := range e.specs.lockChans {
+		if l == name {
+			return true
+		}
+	}
+	return false
 }
-func (e *Exec) chanSend(st *State, fr *Frame, x *ssa.Send) { panic(unsupported("channel send")) }
+
+func (e *Exec) chanHeld(st *State, ch *Term) *Term { return e.ghGet(st, "chanheld", SBool, ch) }
+
+func (e *Exec) lockAcquire(st *State, fr *Frame, ch *Term, pos token.Pos) {
+	e.oblige(st, fr, "lock.acquire-not-held", pos, Not(e.chanHeld(st, ch)))
+	e.ghSet(st, "chanheld", SBool, ch, True)
+}
+
+func (e *Exec) selectInstr(st *State, fr *Frame, x *ssa.Select) []Outcome {
+	if !x.Blocking {
+		panic(unsupported("non-blocking select"))
+	}
+	var outs []Outcome
+	for i, s := range x.States {
+		if s.Dir != types.RecvOnly {
+			panic(unsupported("select with a send case"))
+		}
+		s2 := st.Clone()
+		ch := e.val(fr, s.Chan).(*Term)
+		rs := []Value{BVConst(uint64(i), 64), True}
+		for j, t := range x.States {
+			elem := t.Chan.Type().Underlying().(*types.Chan).Elem()
+			if j == i {
+				if e.isLockChan(s.Chan) {
+					e.lockAcquire(s2, fr, ch, x.Pos())
+					rs = append(rs, True)
+				} else {
+					v := freshValue("recv", elem)
+					e.assumeValid(s2, elem, v)
+					rs = append(rs, v)
+				}
+			} else {
+				rs = append(rs, zeroValue(elem))
+			}
+		}
+		outs = append(outs, Outcome{s2, rs})
+	}
+	return outs
+}
+
+func (e *Exec) chanSend(st *State, fr *Frame, x *ssa.Send) {
+	if !e.isLockChan(x.Chan) {
+		panic(unsupported("channel send (only declared lock channels are modelled)"))
+	}
+	ch := e.val(fr, x.Chan).(*Term)
+	e.oblige(st, fr, "lock.release-held", x.Pos(), e.chanHeld(st, ch))
+	e.ghSet(st, "chanheld", SBool, ch, False)
+}
+
 func (e *Exec) chanRecv(st *State, fr *Frame, x *ssa.UnOp, ch Value) Value {
-	panic(unsupported("channel receive"))
+	if !e.isLockChan(x.X) {
+		panic(unsupported("channel receive (only declared lock channels are modelled)"))
+	}
+	e.lockAcquire(st, fr, ch.(*Term), x.Pos())
+	if x.CommaOk {
+		return &TupleV{Vs: []Value{True, True}}
+	}
+	return True
 }
 
 // sliceEmbeddedArray: c.field[:] where field is an array stored by value inside an object. The slice is modelled as a
